@@ -122,14 +122,30 @@ func diagClass(m *mismatch) string {
 	return ""
 }
 
-// subset: every path of a occurs in b, possibly nested deeper (b's path ends
-// with ">"+a's path); each path of b is used at most once.
+// embeds: the chain x (kinds joined by ">") occurs in the chain y with the same
+// last element and the other elements in order, possibly with more nesting
+// levels in between or around.
+func embeds(x, y string) bool {
+	xs, ys := strings.Split(x, ">"), strings.Split(y, ">")
+	if xs[len(xs)-1] != ys[len(ys)-1] {
+		return false
+	}
+	i := 0
+	for _, e := range ys {
+		if i < len(xs) && e == xs[i] {
+			i++
+		}
+	}
+	return i == len(xs)
+}
+
+// subset: every path of a embeds in a path of b; each path of b is used at most once.
 func subset(a, b []string) bool {
 	used := make([]bool, len(b))
 	for _, x := range a {
 		found := false
 		for j, y := range b {
-			if !used[j] && (y == x || strings.HasSuffix(y, ">"+x)) {
+			if !used[j] && embeds(x, y) {
 				used[j] = true
 				found = true
 				break
